@@ -2,8 +2,11 @@
    Proved: the tokeniser (any run of spaces/tabs before, between and after the two vertex tokens; the rest of the line goes to the label
    parser), the decimal round trip of vertex indices, and the file-level write-then-load round trip for directed and undirected graphs with
    int labels (the header comment line the writer emits is skipped by the comment rule).
-   PARTIAL: loading of hand-written files with comment lines anywhere and the vertex-name table of loadTextVertexLabeledEdgeList are tied
-   to the implementation, to the model and to an independent reading of the format by the correspondence check only. *)
+   Hand-written files (TextLoadProofs.v): on ANY well-formed file - comment lines anywhere, any blanks before, between and after the two
+   tokens, optional label text - both loaders return exactly the graph of the edge lines in order (forced insertion: a repeated pair appears
+   twice, the last label stays); loadTextVertexLabeledEdgeList numbers names in order of first appearance and its table satisfies
+   names[index x] = x; and the name loader accepts EXACTLY the well-formed files (a blank or one-token line makes findEdgeFromString throw
+   std::out_of_range: the format has no blank lines).  Model limit: at most 3001 vertices (harness limit of the loader model). *)
 From Coq Require Import List NArith ZArith.
 From BG Require Import Base IOModel TextProofs DirectedModel DirectedProofs UndirectedProofs Equality RoundTrip URoundTrip TextRoundTrip.
 Import ListNotations.
@@ -53,3 +56,47 @@ Example C13_example :
   omap (fun r => (DirectedModel.adj (fst r), snd r)) (load_text_names DirectedModel.repaired false false (fun _ => Val 0%Z) [98; 32; 97; 10; 35; 120; 10; 97; 32; 99; 10])
     = Val ([[1]; [2]; []]%nat, [[98]; [97]; [99]]).
 Proof. vm_compute. auto. Qed.
+
+(* ---- arbitrary well-formed files (item := Comment text | EdgeLine w0 t1 w1 t2 w2 rest; render = one line per item; is_file: last newline
+   optional; graph_of und hs n es = n isolated vertices then addEdge(i, j, l, force) for each listed edge in order; first_occ = distinct
+   tokens in order of first appearance) ---- *)
+From Coq Require Import Arith.
+From BG Require Import TopologyModel TextLoadProofs.
+Local Close Scope N_scope.
+Theorem C13_name_loader_on_wellformed_files :
+  forall (L : Type) (V : variant) (und hs : bool) (label_of_text : bytes -> outcome L) (lab : bytes -> L) (its : list item) (b : bytes),
+        Forall (item_ok label_of_text lab) its ->
+        is_file its b ->
+        length (first_occ (tokens its)) <= 3001 ->
+        load_text_names V und hs label_of_text b =
+        Val (graph_of und hs (length (first_occ (tokens its))) (map (named_edge lab (first_occ (tokens its))) (edge_lines its)), first_occ (tokens its)).
+Proof. intros L. exact (@TextLoadProofs.load_text_names_wellformed L). Qed.
+Print Assumptions C13_name_loader_on_wellformed_files.
+Theorem C13_loader_on_wellformed_files :
+  forall (L : Type) (V : variant) (und strict hs : bool) (label_of_text : bytes -> outcome L) (lab : bytes -> L) (its : list item) (b : bytes),
+        Forall (num_item_ok label_of_text lab numeral) its ->
+        is_file its b ->
+        exists names : list bytes,
+          load_text V und strict hs label_of_text b =
+          Val (graph_of und hs (vcount (map (num_edge lab num) (edge_lines its))) (map (num_edge lab num) (edge_lines its)), names) /\
+          length names = vcount (map (num_edge lab num) (edge_lines its)) /\
+          (forall k : nat, nth k names [] = last (filter (fun t : bytes => num t =? k) (tokens its)) []).
+Proof. intros L. exact (@TextLoadProofs.load_text_wellformed L). Qed.
+Print Assumptions C13_loader_on_wellformed_files.
+Theorem C13_name_table :
+  forall (L : Type) (V : variant) (und hs : bool) (label_of_text : bytes -> outcome L) (b : bytes) (g : (@dgraph L)) (names : list bytes),
+        load_text_names V und hs label_of_text b = Val (g, names) ->
+        size g = length names /\
+        NoDup names /\
+        (forall t : bytes,
+         In t names ->
+         exists line t1 t2 rest : bytes, In line (lines_of b []) /\ is_comment line = false /\ find_edge_from_string line = Val (t1, t2, rest) /\ (t = t1 \/ t = t2)) /\
+        (forall (t : bytes) (k : nat), name_index t names 0 = Some k <-> nth_error names k = Some t).
+Proof. intros L. exact (@TextLoadProofs.load_text_names_table L). Qed.
+Print Assumptions C13_name_table.
+Theorem C13_name_loader_accepts_exactly :
+  forall (L : Type) (V : variant) (und hs : bool) (label_of_text : bytes -> outcome L) (ldef : L) (b : bytes),
+        (exists (g : (@dgraph L)) (names : list bytes), load_text_names V und hs label_of_text b = Val (g, names)) <->
+        (exists its : list item, Forall (item_ok label_of_text (lab_of label_of_text ldef)) its /\ is_file its b /\ length (first_occ (tokens its)) <= 3001).
+Proof. intros L. exact (@TextLoadProofs.load_text_names_accepts_exactly L). Qed.
+Print Assumptions C13_name_loader_accepts_exactly.
